@@ -186,6 +186,8 @@ def run(ctx, rep, tier):
     rep.rule("GZ", "zero supplies / zero demands are filtered out before the solver sees them", 2)
     rep.rule("AW", "supply / demand totals accumulated in 64 bits", 2)
     rep.rule("DE", "no stale memoised preprocessing: a member derived from the problem data is re-derived by every writer of that data (expected count 0)", 0)
+    rep.rule("NF", "the 1-D transportation classes compute positions and supplies in 64-bit integers (no value passes through float)", 1)
+    rep.rule("EV", "no element of a vector is read at a point where nothing can have filled it yet", 1)
     rep.rule("QC", "callers index per-bin vectors with the returned sink index of a problem with one sink per bin", 2)
     for q in ("Transportation1dSorter::convertAssignmentBack", "Transportation1dSorter::convertSolutionBack",
               "Transportation1dSorter::convert"):
@@ -199,6 +201,23 @@ def run(ctx, rep, tier):
 def _extra(ctx, rep):
     check_zero_filter(ctx, rep)
     check_totals(ctx, rep)
+    check_balance(ctx, rep)
+    from .common import check_no_float
+    nf, nb = check_no_float(ctx, rep, "NF", lambda c: "Transportation1d" in c,
+                            "cumulated supplies exceed 2^24 at the legalizer's scaling (positions up to 1e8): a midpoint or position formed in float lands "
+                            "in the neighbouring sink, or past the last one (out-of-range sink index)")
+    if nf == 0:
+        rep.unknown("NF", None, None, "Transportation1d classes", "no member function found")
+    elif nb == 0:
+        rep.holds("NF", "src/place_global/transportation_1d.cpp", None, "%d member functions convert nothing between integer and floating point" % nf)
+    from .common import check_empty_reads
+    fs = [g_ for g_ in ctx.prog.funcs.values() if g_.cls and "Transportation1d" in g_.cls and g_.body is not None]
+    nobj, nel = check_empty_reads(ctx, rep, "EV", fs)
+    if nobj == 0:
+        rep.unknown("EV", None, None, "Transportation1d classes", "no vector that starts empty was found (shape changed)")
+    elif nel == 0:
+        rep.holds("EV", "src/place_global/transportation_1d.cpp", None, "%d vectors start empty in the 1-D transportation classes; none is read by element "
+                  "(front / back / at / []) anywhere, they are filled and handed on" % nobj)
     from .common import check_eager_derived
     if check_eager_derived(ctx, rep, "DE", class_pred=lambda q: "Transportation1d" in q) == 0:
         rep.holds("DE", "src/place_global/transportation_1d.*", None, "the 1-D transportation classes keep no memoised function of the problem data",
@@ -339,7 +358,42 @@ def check_caller(ctx, rep, f):
         rep.holds("QC", f.decl, f, "one source per collected cell, one sink per bin; assignment read for exactly those cells")
 
 
+def check_solver_inputs(ctx, rep):
+    """GZ (who may build the solver). Transportation1dSolver assumes sorted positions and strictly positive supplies and demands (its
+    rounding walks `D` past every sink until the supply of the source is exhausted): it may only be constructed from what the sorter
+    hands out. A construction from the raw problem data - a fast path for inputs that happen to be sorted - lets zero supplies and zero
+    demands through and the rounding reads past the end of its tables."""
+    prog = ctx.prog
+    n = 0
+    for f in prog.all_funcs(with_lambdas=False):
+        if f.body is None or (f.cls or "").endswith("Transportation1dSolver"):
+            continue
+        for x in walk(f.body):
+            if x.get("kind") not in ("CXXConstructExpr", "CXXTemporaryObjectExpr") or "Transportation1dSolver" not in qt(x):
+                continue
+            args = children(x)
+            if len(args) < 4:
+                continue
+            n += 1
+            from_sorter = 0
+            for a_ in args:
+                if any(y.get("kind") == "CXXMemberCallExpr" and "Transportation1dSorter" in qt(callee_info(y)["obj"] or {}) for y in walk(a_)):
+                    from_sorter += 1
+            what = "%s builds a Transportation1dSolver" % f.short
+            if (f.cls or "").endswith("Transportation1dSorter"):
+                rep.holds("GZ", x, f, what, "inside the sorter, from its sorted and filtered vectors")
+            elif from_sorter == len(args):
+                rep.holds("GZ", x, f, what, "from the four vectors of a Transportation1dSorter (sorted, zero entries removed)")
+            else:
+                rep.violation("GZ", x, f, what, "%d of its %d arguments do not come from a Transportation1dSorter: zero supplies / demands and unsorted or duplicate "
+                              "positions reach a solver whose rounding relies on their absence" % (len(args) - from_sorter, len(args)),
+                              key="%s|solver built from unfiltered data" % f.short)
+    if n == 0:
+        rep.unknown("GZ", None, None, "constructions of Transportation1dSolver", "none found (shape changed)")
+
+
 def check_zero_filter(ctx, rep):
+    check_solver_inputs(ctx, rep)
     prog = ctx.prog
     ctors = [f for f in prog.funcs.values() if f.kind == "CXXConstructorDecl" and f.qname.endswith("Transportation1dSorter::Transportation1dSorter") and f.body is not None]
     if len(ctors) != 1:
@@ -373,7 +427,7 @@ def check_zero_filter(ctx, rep):
     sites = sites_in(ctor)
     # a helper that receives (positions, quantities) of the constructor's parameters and builds the list for them
     cp = {p.get("id") for p in ctor.params}
-    for x in walk(ctor.body):
+    for x in [y_ for root_ in [ctor.body] + list(ctor.ctor_inits) for y_ in walk(root_)]:
         if x.get("kind") in ("CallExpr", "CXXMemberCallExpr"):
             ci = callee_info(x)
             if ci and sum(1 for a in ci["args"] if canon(a)[0] == "var" and canon(a)[1] in cp) >= 2:
@@ -416,3 +470,89 @@ def check_totals(ctx, rep):
                                       key="%s|narrow accumulator" % q)
     if n == 0:
         rep.unknown("AW", None, None, "totals", "no fold found in transportation_1d.cpp")
+
+
+def check_balance(ctx, rep):
+    """QI (balanceDemand). Transportation1d::balanceDemand spreads the missing demand over the sinks: an equal share `missing / K` to
+    every sink and one unit more to the first `missing - share * K` of them. That remainder is below K, so it stays inside d only when K is
+    the number of sinks: every count that enters the arithmetic or bounds a loop over d belongs to the sink domain (nbSinks(), v.size(),
+    d.size()). A source count makes the remainder loop run past the end of d whenever there are more sources than sinks."""
+    prog = ctx.prog
+    fs = [f for f in prog.funcs.values() if f.qname.endswith("Transportation1d::balanceDemand") and f.body is not None]
+    if len(fs) != 1:
+        rep.unknown("QI", None, None, "Transportation1d::balanceDemand", "not found")
+        return
+    f = fs[0]
+
+    def dom(c):
+        if c[0] == "call" and isinstance(c[1], str):
+            nm = c[1].split("::")[-1]
+            if nm == "nbSinks":
+                return "ORIG_SNK"
+            if nm == "nbSources":
+                return "ORIG_SRC"
+            if nm == "size" and len(c) == 3 and c[2][0] == "field":
+                fld = c[2][1].split("::")[-1]
+                return {"u": "ORIG_SRC", "s": "ORIG_SRC", "v": "ORIG_SNK", "d": "ORIG_SNK"}.get(fld)
+        return None
+    n = 0
+    for x in walk(f.body):
+        cs = []
+        if x.get("kind") in ("BinaryOperator", "CompoundAssignOperator") and x.get("opcode") in ("/", "*", "%", "/=", "*=", "%=", "<", "<="):
+            cs = [canon(c_) for c_ in children(x)]
+        for c in cs:
+            dmn = dom(c)
+            if dmn is None:
+                continue
+            n += 1
+            what = "balanceDemand: count %s in %s" % (pretty(c), pretty(canon(x))[:50])
+            if dmn == "ORIG_SNK":
+                rep.holds("QI", x, f, what, "the number of sinks, the index domain of d")
+            else:
+                rep.violation("QI", x, f, what, "a count of the *source* domain shares out demand that is added to the sinks: the remainder loop `for i < missing - "
+                              "share * count` indexes d with up to count - 1 and runs past its end when there are more sources than sinks",
+                              key="Transportation1d::balanceDemand|source count used for the sinks")
+    if n == 0:
+        rep.unknown("QI", f.decl, f, "balanceDemand", "no count of sinks / sources found in its arithmetic (shape changed)")
+    # conservation: what the share loop hands out is what the remainder assumes it handed out. The share goes to every sink the loop
+    # reaches; `missing - share * K` is what is left only if K is the number of those sinks.
+    from .common import for_loop_info, expand_locals
+    for x in walk(f.body):
+        if x.get("kind") != "CompoundAssignOperator" or x.get("opcode") != "+=":
+            continue
+        l, r = children(x)
+        lc, rc = canon(l), canon(r)
+        if not (lc[0] == "index" and lc[1][0] == "field" and str(lc[1][1]).endswith("::d") and rc[0] == "var"):
+            continue
+        share = rc
+        lp = x.get("_p")
+        while lp is not None and lp.get("kind") != "ForStmt":
+            lp = lp.get("_p")
+        li = for_loop_info(lp) if lp is not None else None
+        if not li:
+            continue
+        own = []
+        q = x.get("_p")
+        while q is not None and q is not lp:
+            if q.get("kind") in ("IfStmt", "ConditionalOperator", "SwitchStmt", "WhileStmt", "ForStmt"):
+                own.append((canon(children(q)[0]), True))
+            q = q.get("_p")
+        own += [(("lit", y.get("kind")), True) for y in walk(li["body"]) if y.get("kind") in ("ContinueStmt", "BreakStmt", "ReturnStmt")]
+        # where the share is multiplied back
+        mults = []
+        for y in walk(f.body):
+            if y.get("kind") == "BinaryOperator" and y.get("opcode") == "*":
+                a, b = [canon(c_) for c_ in children(y)]
+                if a == share or b == share:
+                    mults.append((y, b if a == share else a))
+        for y, K in mults:
+            what = "balanceDemand: the share %s goes to the sinks of the loop over %s, the remainder is computed from %s * %s" % (share[2], pretty(li["hi"])[:20], share[2], pretty(K)[:20])
+            full = li["lo"] == ("lit", "0") and li.get("step") == 1 and not own
+            if full and expand_locals(ctx, f, K) == expand_locals(ctx, f, li["hi"]):
+                rep.holds("QI", y, f, what, "every sink receives the share and the remainder counts them all")
+            elif not full and expand_locals(ctx, f, K) == expand_locals(ctx, f, li["hi"]):
+                rep.violation("QI", y, f, what, "the share is handed out only under %s, yet the remainder subtracts it once per sink of the whole range: less demand is added than "
+                              "was missing, and the supply still exceeds the demand after balancing" % [pretty(g_)[:40] for g_, _v in own],
+                              key="Transportation1d::balanceDemand|remainder counts sinks that received no share")
+            else:
+                rep.unknown("QI", y, f, what, "the multiplier of the share is not the bound of the loop that hands it out")
